@@ -35,8 +35,8 @@ Theorem C18_incr_in_order : forall W r b_old new, approx tr r b_old -> (forall x
 Proof. exact (incremental_in_order tr). Qed.
 
 (* whole histories: if every refresh in the history meets its requirement on the changes made since the previous refresh
-   (`pre`: nothing for full; inside the lookback window for merge; in time order for incremental; first run only for the CLI's
-   incremental/merge modes), the history ends with the full rollup of the current base *)
+   (`pre`: nothing for full; inside the lookback window for merge; in time order for incremental; the command line's incremental and merge
+   modes are the API's, merge without a lookback), the history ends with the full rollup of the current base *)
 Theorem C18_history : forall h o s, is_refresh o = true -> all_pre tr (h ++ [o]) (s, base s) -> GInv tr (s, base s) ->
   match rollup (run tr (h ++ [o]) s) with Some r => approx tr r (base (run tr (h ++ [o]) s)) | None => False end.
 Proof. exact (history_converges tr). Qed.
@@ -57,15 +57,21 @@ Proof. exact progs_refine_run. Qed.
 Theorem C18_dispatch : mode_dispatch = expected_dispatch.
 Proof. reflexivity. Qed.
 
-(* the CLI's incremental and merge modes do NOT obey the guarantees on a second run (no watermark predicate in the source statement) *)
-Example C18_cli_incremental_refuted :
+(* the command line's incremental and merge modes are the API's modes (bucket-level watermark predicate in the source statement, no lookback): everything above
+   applies to them; a second run without new data leaves one row per bucket.  (Before the repair of cli.py -- no predicate in the source statement -- these two
+   examples had rows_at r (5, 0) = 2: the former open class C18-K1.) *)
+Theorem C18_cli_incremental_is_api : forall tr s, step tr s CliIncr = step tr s Incr.
+Proof. exact cli_incr_is_incr. Qed.
+Theorem C18_cli_merge_is_api : forall tr s, step tr s CliMerge = step tr s (Merge 0).
+Proof. exact cli_merge_is_merge0. Qed.
+Example C18_cli_incremental_rerun :
   let s2 := run (fun z => z) [CliIncr; CliIncr] {| base := ex_base; rollup := None |} in
-  match rollup s2 with Some r => rows_at r (5, 0) = 2 | None => False end.
-Proof. exact cli_incremental_refuted. Qed.
-Example C18_cli_merge_refuted :
+  match rollup s2 with Some r => rows_at r (5, 0) = 1 /\ rows_at r (9, 0) = 1 | None => False end.
+Proof. exact cli_incremental_rerun. Qed.
+Example C18_cli_merge_rerun :
   let s2 := run (fun z => z) [CliMerge; CliMerge] {| base := ex_base; rollup := None |} in
-  match rollup s2 with Some r => rows_at r (5, 0) = 2 /\ rows_at r (9, 0) = 1 | None => False end.
-Proof. exact cli_merge_refuted. Qed.
+  match rollup s2 with Some r => rows_at r (5, 0) = 1 /\ rows_at r (9, 0) = 1 | None => False end.
+Proof. exact cli_merge_rerun. Qed.
 Example C18_nonvacuous :
   let s := {| base := [ {| b_ts := 5; b_dim := 0; b_v := 10 |} ]; rollup := None |} in
   let h := [Full; SetBase [ {| b_ts := 5; b_dim := 0; b_v := 10 |}; {| b_ts := 9; b_dim := 1; b_v := 1 |} ]; Incr;
